@@ -741,11 +741,15 @@ namespace bloch::compiler {
         std::vector<std::unique_ptr<AnnotationNode>> annotations;
 
         while (check(TokenType::At)) {
-            // TODO: refactor this, currently if invalid variable annotation is used, it will be
-            // caught rather than thrown this is a rather hacky solution.
-            try {
+            // Decide by look-ahead: a failed attempt at the other kind would already have
+            // consumed the '@', so '@quantum' in front of a method could never be parsed.
+            if (checkNext(TokenType::Tracked)) {
                 annotations.push_back(parseVariableAnnotation());
-            } catch (BlochError error) {
+            } else {
+                if (checkNext(TokenType::Shots)) {
+                    (void)advance();
+                    reportError("'@shots(N)' can only decorate the main() function");
+                }
                 annotations.push_back(parseFunctionAnnotation());
             }
         }
